@@ -27,7 +27,7 @@ def places_for(tier):
             return ["dirtybig", "cap0"]
         if form in ("ref-same", "ref-foreign"):
             return ["cap0", "ba-cap0"]
-        if form == "cap":
+        if form in ("cap", "cap-np"):
             return ["cap0", "dirtybig", "dirtybig2", "default"]
         return ["ctx"]
 
